@@ -5,7 +5,8 @@ selftest.json (the changes each property's thorough tier must keep catching)."""
 import glob, json, os, re, subprocess, sys
 V = os.path.dirname(os.path.dirname(os.path.abspath(__file__)))
 EXTRA = {"C01-3": ["C11"], "C04-3": ["C14"], "C12-3": ["C02"], "C09-3": ["C01"], "C02-2": ["C03"], "C02-3": ["C12"], "C09-2": ["C01"], "C01-1": [], "C03-3": [],
-         "C08-2": ["C01"], "C16-3": ["C02"]}
+         "C08-2": ["C01"], "C16-3": ["C02"], "C04-4": ["C14"], "C09-4": ["C08", "C01"], "C08-4": ["C09"], "C12-5": ["C02"], "C02-5": ["C03"], "C09-1": ["C08"],
+         "C09-5": ["C01"], "C09-6": ["C08"], "C03-5": ["C01"], "C08-3": [], "C18-5": ["C14"], "C01-4": ["C11"], "C11-6": ["C01"]}
 items = []
 for d in sorted(glob.glob(os.path.join(V, "seeded", "C*-*"))):
     n = os.path.basename(d)
